@@ -435,6 +435,22 @@ func main() {
 			run.Fatal("building the recording plugin: %v\n%s", err, out)
 		}
 	}
+	// the same plugin declared against an SDK that predates the data trailer (no include compression for it)
+	{
+		odir := filepath.Join(scratch, "vplug-old")
+		os.MkdirAll(odir, 0o755)
+		os.WriteFile(filepath.Join(odir, "main.go"), []byte(plugSrc), 0o644)
+		os.WriteFile(filepath.Join(odir, "go.mod"), []byte("module vplugold\n\ngo 1.22\n\nrequire github.com/cloudwego/thriftgo v0.3.15\n\nreplace github.com/cloudwego/thriftgo => /repo\n\nreplace golang.org/x/sync v0.11.0 => golang.org/x/sync v0.10.0\n"), 0o644)
+		if b, err := os.ReadFile("/repo/go.sum"); err == nil {
+			os.WriteFile(filepath.Join(odir, "go.sum"), b, 0o644)
+		}
+		cmd := exec.Command("go", "build", "-o", filepath.Join(bindir, "thrift-gen-vold"), ".")
+		cmd.Dir = odir
+		cmd.Env = gen.GoEnv()
+		if out, err := cmd.CombinedOutput(); err != nil {
+			run.Fatal("building the old-SDK plugin: %v\n%s", err, out)
+		}
+	}
 	if b, err := os.ReadFile(filepath.Join(bindir, "thrift-gen-vrec")); err == nil {
 		os.WriteFile(filepath.Join(bindir, "thrift-gen-vrec2"), b, 0o755)
 		os.WriteFile(filepath.Join(bindir, "thrift-gen-vrec3"), b, 0o755)
@@ -603,6 +619,50 @@ func main() {
 	}
 	close(work)
 	wg.Wait()
+
+	// ---- B1b: a plugin built against an SDK without the trailer must get the plain request,
+	// whatever THRIFTGO_PLUGIN_COMPRESS_INCLUDE says
+	for _, dp := range dps {
+		for _, compress := range []bool{false, true} {
+			dir, out, rec := newCase()
+			rec = filepath.Join(filepath.Dir(rec), "thrift-gen-vold")
+			os.MkdirAll(rec, 0o755)
+			args := []string{"-g", "go", "-p", "vold:a=1", "-o", out, "-r", dp.main}
+			env := append(append([]string{}, baseEnv...), "VREC_DIR="+filepath.Dir(rec))
+			if compress {
+				env = append(env, "THRIFTGO_PLUGIN_COMPRESS_INCLUDE=1")
+			}
+			r := runCmd(3*time.Minute, env, cwd, tg, args...)
+			run.Eval(fmt.Sprintf("B|request-old-sdk|%s|compress=%v", dp.name, compress), true)
+			rp := map[string]any{"program": dp.name, "args": args, "compress_env": compress, "plugin_sdk": "v0.3.15", "files": dp.texts}
+			cls := fmt.Sprintf("%s:compress=%v", dp.name, compress)
+			if r.hung || r.exit != 0 {
+				run.Violate(evid.Violation{Class: "run-with-old-sdk-plugin-failed:" + cls, What: fmt.Sprintf("thriftgo %v: exit %d\n%s", args, r.exit, tail(r.out)), Replay: rp})
+				os.RemoveAll(dir)
+				continue
+			}
+			raw, _ := os.ReadFile(rec + "/request.bin")
+			if bytes.HasSuffix(raw, []byte(trailer)) {
+				run.Violate(evid.Violation{Class: "trailer-sent-to-old-sdk-plugin", What: "a plugin built against thriftgo v0.3.15 was sent the data trailer", Replay: rp})
+				os.RemoveAll(dir)
+				continue
+			}
+			dec, _ := os.ReadFile(rec + "/decoded.bin")
+			req, err := plugin.UnmarshalRequest(dec)
+			if err != nil {
+				run.Violate(evid.Violation{Class: "request-undecodable:old-sdk:" + cls, What: err.Error(), Replay: rp})
+				os.RemoveAll(dir)
+				continue
+			}
+			if pth, w := idlast.Diff(expAST[dp.name], req.AST, nil); pth != "" {
+				run.Violate(evid.Violation{Class: "request-ast-differs:old-sdk:" + strings.ReplaceAll(pth, "[]", ""), What: fmt.Sprintf("%s compress_env=%v, plugin built against v0.3.15: the AST it decodes differs from the front end's at %s: %s", dp.name, compress, pth, w), Replay: rp})
+				os.RemoveAll(dir)
+				continue
+			}
+			count("B-request-old-sdk-ok")
+			os.RemoveAll(dir)
+		}
+	}
 
 	// ---- B2: responses and faults, on the interplay program with -r
 	ip := dps[0]
